@@ -48,6 +48,12 @@ def run(ctx):
     repo = corpus.cases(ctx, ("C01", "C02", "C03"))
     expects = {c["id"]: c["testExpects"] for c in repo if c.get("testExpects") is not None}
     cases += repo
+    # a share of the programs once more in another legal spelling (harness/respell.go): brackets, no blanks / no optional brackets, var for :=
+    if not ctx.spell_share:
+        ctx.spell_share = 8 if quick else 3
+    extra = progflow.respelled(ctx, cases)
+    ctx.notes["respelled_cases"] = len(extra)
+    cases += extra
     # (1)+(3): Bash run and reference run with W = 32
     res = progflow.validate(ctx, cases, "ref", width=32)
     keep = []
